@@ -141,8 +141,11 @@ theorem findByNameAll_ok {n : String} {y : Symbol} : ∀ {ts : List Table}, Tabl
 
 /-! ### the invariant and the step relation -/
 
-/-- a compiled function in the constant pool: its locals fit the frame, its stream decodes -/
-def FnOK (f : CFn) : Prop := f.numLocals ≤ 256 ∧ Walk f.insts 0 f.insts.size
+/-- an instruction stream that decodes completely and whose jump / try targets are boundaries -/
+def StreamOK (a : Array UInt8) : Prop := Walk a 0 a.size ∧ TargetsOK a
+
+/-- a compiled function in the constant pool: its locals fit the frame, its stream is fine -/
+def FnOK (f : CFn) : Prop := f.numLocals ≤ 256 ∧ StreamOK f.insts
 def ConstsOK (cs : Array Const) : Prop := ∀ c ∈ cs.toList, ∀ f, c = .fn f → FnOK f
 
 theorem ConstsOK.push {cs : Array Const} (h : ConstsOK cs) {c : Const} (hc : ∀ f, c = .fn f → FnOK f) :
@@ -159,6 +162,7 @@ structure Inv (s : CState) : Prop where
   walk : Walk s.insts 0 s.insts.size
   loops : ∀ l ∈ s.loops, ∀ p, (p ∈ l.breaks ∨ p ∈ l.continues) → Bd s.insts p
   consts : ConstsOK s.constants
+  targets : TargetsOK s.insts
 
 structure Rel (s s' : CState) : Prop where
   tlen : s'.tables.length = s.tables.length
@@ -203,7 +207,8 @@ theorem Rel.of_same {s s' : CState} (h1 : s'.tables.length = s.tables.length) (h
 
 theorem Inv.of_tables {s s' : CState} (h : Inv s) (h1 : s'.tables ≠ []) (h2 : TablesOK s'.tables)
     (h3 : s'.insts = s.insts) (h4 : s'.loops = s.loops) (h5 : s'.constants = s.constants := by rfl) : Inv s' :=
-  ⟨h1, h2, by rw [h3]; exact h.walk, by rw [h3, h4]; exact h.loops, by rw [h5]; exact h.consts⟩
+  ⟨h1, h2, by rw [h3]; exact h.walk, by rw [h3, h4]; exact h.loops, by rw [h5]; exact h.consts,
+   by rw [h3]; exact h.targets⟩
 
 /-- `GoodP P m`: from a state satisfying the invariant `m` does not panic; on normal termination
     the invariant holds again, the states are related, and the result satisfies `P`. -/
@@ -316,7 +321,7 @@ theorem good_addConstant (k : CVal) : Good (addConstant k) := by
   · exact Sat.pure ⟨hs, Rel.refl s, trivial⟩
   · apply Sat.bind
     apply Sat.set
-    exact Sat.pure ⟨⟨hs.ne, hs.tabs, hs.walk, hs.loops, hs.consts.push (fun f hf => by cases hf)⟩,
+    exact Sat.pure ⟨⟨hs.ne, hs.tabs, hs.walk, hs.loops, hs.consts.push (fun f hf => by cases hf), hs.targets⟩,
       Rel.of_same rfl rfl rfl, trivial⟩
 
 theorem good_addFnConstant (f : CFn) (hf : FnOK f) : Good (addFnConstant f) := by
@@ -328,7 +333,7 @@ theorem good_addFnConstant (f : CFn) (hf : FnOK f) : Good (addFnConstant f) := b
   · exact Sat.pure ⟨hs, Rel.refl s, trivial⟩
   · apply Sat.bind
     apply Sat.set
-    exact Sat.pure ⟨⟨hs.ne, hs.tabs, hs.walk, hs.loops, hs.consts.push (fun g hg => by injection hg with hg; subst hg; exact hf)⟩,
+    exact Sat.pure ⟨⟨hs.ne, hs.tabs, hs.walk, hs.loops, hs.consts.push (fun g hg => by injection hg with hg; subst hg; exact hf), hs.targets⟩,
       Rel.of_same rfl rfl rfl, trivial⟩
 
 theorem goodP_resolve (name : String) : GoodP (fun r => ∀ y, r = some y → SymOK y) (resolve name) := by
@@ -370,10 +375,18 @@ theorem Rel.transfer {a b a' b' : CState} (h : Rel a b) (hi : a.insts = a'.insts
 theorem pre_append (a : Array UInt8) (bs : List UInt8) : Pre a (a ++ bs.toArray) :=
   ⟨by simp, fun k hk => by simp [Array.getElem?_append, hk]⟩
 
+/-- operands that are fine for every stream: a jump-class instruction is emitted with the
+    placeholder 0, SETUPTRY with 0 0 -/
+def StaticArgs (op : Nat) (args : List Int) : Prop :=
+  (isJumpOp op = true → args = [0]) ∧ (op = OpSetupTry → args = [0, 0])
+
+theorem StaticArgs.argsOK {op : Nat} {args : List Int} (h : StaticArgs op args) (a : Array UInt8) : ArgsOK a op args :=
+  ⟨fun hj => ⟨0, by rw [h.1 hj]; rfl, .refl 0⟩, fun ht => ⟨0, 0, by rw [h.2 ht]; rfl, .refl 0, .refl 0⟩⟩
+
 /-- `emit`: an error (never a panic) when the operands do not fit; otherwise the new instruction
     starts at the old end of the stream, which is a boundary of the new stream -/
 theorem sat_emit {pos : Pos} {op : Nat} {args : List Int} {s : CState} {Q : Nat → CState → Prop}
-    (hs : Inv s) (hop : op < numOpcodes)
+    (hs : Inv s) (hop : op < numOpcodes) (harg : ArgsOK s.insts op args)
     (h : ∀ s', Inv s' → Rel s s' → Bd s'.insts s.insts.size → s'.tables = s.tables → Q s.insts.size s') :
     Sat (emit pos op args) s Q := by
   unfold emit
@@ -386,6 +399,7 @@ theorem sat_emit {pos : Pos} {op : Nat} {args : List Int} {s : CState} {Q : Nat 
     · exact Sat.throw_err
   | ok bs =>
     simp only
+    have htg := TargetsOK.append_inst hs.walk hs.targets hop hm harg
     obtain ⟨rest, hbs, hl⟩ := makeInstruction_ok hm
     subst hbs
     apply Sat.bind
@@ -395,60 +409,148 @@ theorem sat_emit {pos : Pos} {op : Nat} {args : List Int} {s : CState} {Q : Nat 
     apply Sat.pure
     have hpre := pre_append s.insts (UInt8.ofNat op :: rest)
     apply h
-    · exact ⟨hs.ne, hs.tabs, Walk.append_inst hs.walk hop hl, fun l hl p hp => (hs.loops l hl p hp).pre hpre, hs.consts⟩
+    · exact ⟨hs.ne, hs.tabs, Walk.append_inst hs.walk hop hl, fun l hl p hp => (hs.loops l hl p hp).pre hpre, hs.consts, htg⟩
     · exact Rel.of_pre rfl hpre rfl
     · exact Bd.append_inst hs.walk
     · rfl
 
-theorem good_emit {pos : Pos} {op : Nat} {args : List Int} (hop : op < numOpcodes) : Good (emit pos op args) :=
-  fun _ hs => sat_emit hs hop fun _ h1 h2 _ _ => ⟨h1, h2, trivial⟩
+theorem good_emit {pos : Pos} {op : Nat} {args : List Int} (hop : op < numOpcodes) (ha : StaticArgs op args) :
+    Good (emit pos op args) :=
+  fun s hs => sat_emit hs hop (ha.argsOK s.insts) fun _ h1 h2 _ _ => ⟨h1, h2, trivial⟩
 
-theorem good_emit_ {pos : Pos} {op : Nat} {args : List Int} (hop : op < numOpcodes) : Good (emit_ pos op args) := by
+theorem good_emit_ {pos : Pos} {op : Nat} {args : List Int} (hop : op < numOpcodes) (ha : StaticArgs op args) :
+    Good (emit_ pos op args) := by
   unfold emit_
-  exact GoodP.bind (good_emit hop) fun _ _ => GoodP.pure trivial
+  exact GoodP.bind (good_emit hop ha) fun _ _ => GoodP.pure trivial
 
 /-! ### sequences that patch earlier instructions -/
 
-/-- `St s0 ps s`: `s` is reached from `s0`; the positions `ps` were emitted since `s0` and are
-    boundaries of the current stream -/
-structure St (s0 : CState) (ps : List Nat) (s : CState) : Prop where
+/-- `St s0 ps ts s`: `s` is reached from `s0`; the positions `ps` were emitted since `s0` and are
+    inner boundaries of the current stream; the offsets `ts` (values of `len(c.instructions)` read
+    on the way, and emitted positions) are boundaries of the current stream -/
+structure St (s0 : CState) (ps ts : List Nat) (s : CState) : Prop where
   inv : Inv s
   rel : Rel s0 s
   pend : ∀ p ∈ ps, Bd s.insts p ∧ s0.insts.size ≤ p
+  tgt : ∀ t ∈ ts, Walk s.insts 0 t
 
-theorem St.init {s : CState} (h : Inv s) : St s [] s := ⟨h, Rel.refl s, fun _ hp => by simp at hp⟩
+theorem St.init {s : CState} (h : Inv s) : St s [] [] s :=
+  ⟨h, Rel.refl s, fun _ hp => by simp at hp, fun _ hp => by simp at hp⟩
 
-theorem St.final {α} {s0 s : CState} {ps : List Nat} (a : α) (h : St s0 ps s) :
-    Sat (Pure.pure a : CM α) s (fun _ s' => Inv s' ∧ Rel s0 s' ∧ True) := Sat.pure ⟨h.inv, h.rel, trivial⟩
+theorem St.step {s0 s s' : CState} {ps ts : List Nat} (h : St s0 ps ts s) (hi : Inv s') (hr : Rel s s') : St s0 ps ts s' :=
+  ⟨hi, h.rel.trans hr, fun p hp => ⟨(h.pend p hp).1.pre hr.pre, (h.pend p hp).2⟩, fun t ht => (h.tgt t ht).pre hr.pre⟩
 
-theorem St.step {s0 s s' : CState} {ps : List Nat} (h : St s0 ps s) (hi : Inv s') (hr : Rel s s') : St s0 ps s' :=
-  ⟨hi, h.rel.trans hr, fun p hp => ⟨(h.pend p hp).1.pre hr.pre, (h.pend p hp).2⟩⟩
-
-theorem St.weaken {s0 s : CState} {ps ps' : List Nat} (h : St s0 ps s) (hsub : ∀ p ∈ ps', p ∈ ps) : St s0 ps' s :=
-  ⟨h.inv, h.rel, fun p hp => h.pend p (hsub p hp)⟩
-
-theorem st_good_bind {α β} {P : α → Prop} {m : CM α} {f : α → CM β} {s0 s : CState} {ps : List Nat}
-    {Q : β → CState → Prop} (hm : GoodP P m) (hst : St s0 ps s)
-    (h : ∀ a s', P a → St s0 ps s' → Sat (f a) s' Q) : Sat (m >>= f) s Q := by
+theorem st_good_bind {α β} {P : α → Prop} {m : CM α} {f : α → CM β} {s0 s : CState} {ps ts : List Nat}
+    {Q : β → CState → Prop} (hm : GoodP P m) (hst : St s0 ps ts s)
+    (h : ∀ a s', P a → St s0 ps ts s' → Sat (f a) s' Q) : Sat (m >>= f) s Q := by
   apply Sat.bind
   apply Sat.mono (hm s hst.inv)
   intro a s' ⟨h1, h2, h3⟩
   exact h a s' h3 (hst.step h1 h2)
 
-theorem st_emit_bind {β} {pos : Pos} {op : Nat} {args : List Int} {f : Nat → CM β} {s0 s : CState} {ps : List Nat}
-    {Q : β → CState → Prop} (hst : St s0 ps s) (hop : op < numOpcodes)
-    (h : ∀ s', St s0 (s.insts.size :: ps) s' → Sat (f s.insts.size) s' Q) : Sat (emit pos op args >>= f) s Q := by
+/-- reading `len(c.instructions)`: the value is a boundary from now on -/
+theorem st_curPos_bind {β} {f : Nat → CM β} {s0 s : CState} {ps ts : List Nat} {Q : β → CState → Prop}
+    (hst : St s0 ps ts s) (h : St s0 ps (s.insts.size :: ts) s → Sat (f s.insts.size) s Q) :
+    Sat (curPos >>= f) s Q := by
   apply Sat.bind
-  apply sat_emit hst.inv hop
-  intro s' h1 h2 h3 _
+  unfold curPos
+  apply Sat.bind
+  apply Sat.get
+  apply Sat.pure
   apply h
-  have h4 := hst.step h1 h2
-  refine ⟨h4.inv, h4.rel, ?_⟩
-  intro p hp
-  simp at hp
-  rcases hp with hp | hp
-  · subst hp; exact ⟨h3, hst.rel.pre.1⟩
-  · exact h4.pend p hp
+  refine ⟨hst.inv, hst.rel, hst.pend, ?_⟩
+  intro t ht
+  simp at ht
+  rcases ht with ht | ht
+  · subst ht; exact hst.inv.walk
+  · exact hst.tgt t ht
+
+/-- the arguments of an instruction are tracked boundaries (or 0) -/
+def ArgsIn (ts : List Nat) (args : List Int) : Prop := ∀ x ∈ args, ∃ t : Nat, x = (t : Int) ∧ (t = 0 ∨ t ∈ ts)
+
+theorem ArgsIn.argsOK {ts : List Nat} {args : List Int} {a : Array UInt8} {op : Nat} (h : ArgsIn ts args)
+    (hts : ∀ t ∈ ts, Walk a 0 t) (hlen : (operandWidths op).length = args.length) : ArgsOK a op args := by
+  have hw : ∀ x ∈ args, ∃ t : Nat, x = (t : Int) ∧ Walk a 0 t := by
+    intro x hx
+    obtain ⟨t, ht, h0⟩ := h x hx
+    refine ⟨t, ht, ?_⟩
+    rcases h0 with h0 | h0
+    · subst h0; exact .refl 0
+    · exact hts t h0
+  constructor
+  · intro hj
+    rw [isJumpOp_widths hj] at hlen
+    match args, hlen, hw with
+    | [x], _, hw =>
+      obtain ⟨t, ht, hwt⟩ := hw x (by simp)
+      exact ⟨t, by rw [ht], hwt⟩
+  · intro ht
+    subst ht
+    have : operandWidths OpSetupTry = [4, 4] := rfl
+    rw [this] at hlen
+    match args, hlen, hw with
+    | [x, y], _, hw =>
+      obtain ⟨t1, ht1, hw1⟩ := hw x (by simp)
+      obtain ⟨t2, ht2, hw2⟩ := hw y (by simp)
+      exact ⟨t1, t2, by rw [ht1, ht2], hw1, hw2⟩
+
+theorem makeInstruction_len {op : Nat} {args : List Int} {bs : List UInt8} (h : makeInstruction op args = .ok bs) :
+    (operandWidths op).length = args.length := by
+  unfold makeInstruction at h
+  split at h
+  · cases h
+  · rename_i hl; simpa using hl
+
+theorem st_emit_bind {β} {pos : Pos} {op : Nat} {args : List Int} {f : Nat → CM β} {s0 s : CState} {ps ts : List Nat}
+    {Q : β → CState → Prop} (hst : St s0 ps ts s) (hop : op < numOpcodes) (ha : StaticArgs op args ∨ ArgsIn ts args)
+    (h : ∀ s', St s0 (s.insts.size :: ps) (s.insts.size :: ts) s' → Sat (f s.insts.size) s' Q) :
+    Sat (emit pos op args >>= f) s Q := by
+  apply Sat.bind
+  by_cases hm : ∃ bs, makeInstruction op args = .ok bs
+  · obtain ⟨bs, hm⟩ := hm
+    have harg : ArgsOK s.insts op args := by
+      rcases ha with ha | ha
+      · exact ha.argsOK _
+      · exact ha.argsOK hst.tgt (makeInstruction_len hm)
+    apply sat_emit hst.inv hop harg
+    intro s' h1 h2 h3 _
+    apply h
+    have h4 := hst.step h1 h2
+    refine ⟨h4.inv, h4.rel, ?_, ?_⟩
+    · intro p hp
+      simp at hp
+      rcases hp with hp | hp
+      · subst hp; exact ⟨h3, hst.rel.pre.1⟩
+      · exact h4.pend p hp
+    · intro t ht
+      simp at ht
+      rcases ht with ht | ht
+      · subst ht; exact h3.1
+      · exact h4.tgt t ht
+  · -- the operands do not fit: an error
+    unfold emit
+    rw [if_neg (by omega)]
+    cases hm' : makeInstruction op args with
+    | ok bs => exact absurd ⟨bs, hm'⟩ hm
+    | error m =>
+      simp only
+      split
+      · exact Sat.throw_bare
+      · exact Sat.throw_err
+
+theorem St.weaken {s0 s : CState} {ps ts ps' ts' : List Nat} (h : St s0 ps ts s) (hsub : ∀ p ∈ ps', p ∈ ps)
+    (hsub' : ∀ t ∈ ts', t ∈ ts) : St s0 ps' ts' s :=
+  ⟨h.inv, h.rel, fun p hp => h.pend p (hsub p hp), fun t ht => h.tgt t (hsub' t ht)⟩
+
+theorem st_emit__bind {β} {pos : Pos} {op : Nat} {args : List Int} {f : Unit → CM β} {s0 s : CState} {ps ts : List Nat}
+    {Q : β → CState → Prop} (hst : St s0 ps ts s) (hop : op < numOpcodes) (ha : StaticArgs op args ∨ ArgsIn ts args)
+    (h : ∀ s', St s0 ps ts s' → Sat (f ()) s' Q) : Sat (emit_ pos op args >>= f) s Q := by
+  unfold emit_
+  rw [bind_assoc]
+  apply st_emit_bind hst hop ha
+  intro s' hst'
+  rw [pure_bind]
+  exact h s' (hst'.weaken (fun p hp => by simp [hp]) (fun t ht => by simp [ht]))
 
 theorem Bd.op {a : Array UInt8} {p : Nat} (h : Bd a p) (hw : Walk a 0 a.size) :
     ∃ op, a[p]? = some op ∧ op.toNat < numOpcodes := by
@@ -458,9 +560,11 @@ theorem Bd.op {a : Array UInt8} {p : Nat} (h : Bd a p) (hw : Walk a 0 a.size) :
     | step op h1 h2 h3 h4 => exact ⟨op, h1, h2⟩
   · have := h'.le; have := h.2; omega
 
-/-- `changeOperand` at a pending position: an error when the operand does not fit, never a panic -/
-theorem st_changeOperand {p : Nat} {args : List Int} {s0 s : CState} {ps : List Nat} {Q : Unit → CState → Prop}
-    (hst : St s0 ps s) (hp : p ∈ ps) (h : ∀ s', St s0 ps s' → Q () s') : Sat (changeOperand p args) s Q := by
+/-- `changeOperand` at a pending position with tracked boundaries as operands: an error when an
+    operand does not fit, never a panic -/
+theorem st_changeOperand {p : Nat} {args : List Int} {s0 s : CState} {ps ts : List Nat} {Q : Unit → CState → Prop}
+    (hst : St s0 ps ts s) (hp : p ∈ ps) (hargs : ArgsIn ts args) (h : ∀ s', St s0 ps ts s' → Q () s') :
+    Sat (changeOperand p args) s Q := by
   unfold changeOperand
   apply Sat.bind
   apply Sat.get
@@ -472,40 +576,57 @@ theorem st_changeOperand {p : Nat} {args : List Int} {s0 s : CState} {ps : List 
   | error m => exact Sat.throw_bare
   | ok bs =>
     simp only
+    have htg := TargetsOK.patch_inst hst.inv.walk hst.inv.targets hbd.1 hop hm
+      (hargs.argsOK hst.tgt (makeInstruction_len hm))
     obtain ⟨rest, hbs, hl⟩ := makeInstruction_ok hm
     subst hbs
     have hofn : UInt8.ofNat op.toNat = op := by simp
-    rw [hofn]
+    rw [hofn] at htg ⊢
     apply Sat.set
     apply h
     have hwalk : ∀ j, Walk s.insts 0 j → Walk (patch s.insts p (op :: rest)) 0 j :=
       fun j hj => Walk.patch_inst hj hbd.1 hop hl
     have hbd' : ∀ q, Bd s.insts q → Bd (patch s.insts p (op :: rest)) q :=
       fun q hq => ⟨hwalk q hq.1, by rw [size_patch]; exact hq.2⟩
-    refine ⟨⟨hst.inv.ne, hst.inv.tabs, ?_, fun l hl q hq => hbd' q (hst.inv.loops l hl q hq), hst.inv.consts⟩, ?_, ?_⟩
+    refine ⟨⟨hst.inv.ne, hst.inv.tabs, ?_, fun l hl q hq => hbd' q (hst.inv.loops l hl q hq), hst.inv.consts, htg⟩, ?_, ?_, ?_⟩
     · have := hwalk _ hst.inv.walk
       simpa [size_patch] using this
     · refine ⟨hst.rel.tlen, Pre.patch hst.rel.pre hge, hst.rel.llen, hst.rel.ltail, hst.rel.lhead⟩
     · intro q hq
       exact ⟨hbd' q (hst.pend q hq).1, (hst.pend q hq).2⟩
+    · intro t ht
+      exact hwalk t (hst.tgt t ht)
 
-theorem st_changeOperand_bind {β} {p : Nat} {args : List Int} {f : Unit → CM β} {s0 s : CState} {ps : List Nat}
-    {Q : β → CState → Prop} (hst : St s0 ps s) (hp : p ∈ ps)
-    (h : ∀ s', St s0 ps s' → Sat (f ()) s' Q) : Sat (changeOperand p args >>= f) s Q :=
-  Sat.bind (st_changeOperand hst hp h)
+theorem st_changeOperand_bind {β} {p : Nat} {args : List Int} {f : Unit → CM β} {s0 s : CState} {ps ts : List Nat}
+    {Q : β → CState → Prop} (hst : St s0 ps ts s) (hp : p ∈ ps) (hargs : ArgsIn ts args)
+    (h : ∀ s', St s0 ps ts s' → Sat (f ()) s' Q) : Sat (changeOperand p args >>= f) s Q :=
+  Sat.bind (st_changeOperand hst hp hargs h)
 
-theorem st_patchAll {target : Nat} : ∀ {l : List Nat} {s0 s : CState} {ps : List Nat} {Q : Unit → CState → Prop},
-    St s0 ps s → (∀ p ∈ l, p ∈ ps) → (∀ s', St s0 ps s' → Q () s') → Sat (patchAll target l) s Q
-  | [], _, _, _, _, hst, _, h => Sat.pure (h _ hst)
-  | p :: r, _, _, _, _, hst, hsub, h => by
+theorem argsIn_one {ts : List Nat} {t : Nat} (h : t = 0 ∨ t ∈ ts) : ArgsIn ts [(t : Int)] := by
+  intro x hx
+  simp at hx
+  exact ⟨t, hx, h⟩
+
+theorem argsIn_two {ts : List Nat} {t1 t2 : Nat} (h1 : t1 = 0 ∨ t1 ∈ ts) (h2 : t2 = 0 ∨ t2 ∈ ts) :
+    ArgsIn ts [(t1 : Int), (t2 : Int)] := by
+  intro x hx
+  simp at hx
+  rcases hx with hx | hx
+  · exact ⟨t1, hx, h1⟩
+  · exact ⟨t2, hx, h2⟩
+
+theorem st_patchAll {target : Nat} : ∀ {l : List Nat} {s0 s : CState} {ps ts : List Nat} {Q : Unit → CState → Prop},
+    St s0 ps ts s → (∀ p ∈ l, p ∈ ps) → target ∈ ts → (∀ s', St s0 ps ts s' → Q () s') → Sat (patchAll target l) s Q
+  | [], _, _, _, _, _, hst, _, _, h => Sat.pure (h _ hst)
+  | p :: r, _, _, _, _, _, hst, hsub, ht, h => by
     simp only [patchAll]
-    apply st_changeOperand_bind hst (hsub p (by simp))
+    apply st_changeOperand_bind hst (hsub p (by simp)) (argsIn_one (.inr ht))
     intro s' hst'
-    exact st_patchAll hst' (fun q hq => hsub q (by simp [hq])) h
+    exact st_patchAll hst' (fun q hq => hsub q (by simp [hq])) ht h
 
-theorem st_patchAll_bind {β} {target : Nat} {l : List Nat} {f : Unit → CM β} {s0 s : CState} {ps : List Nat}
-    {Q : β → CState → Prop} (hst : St s0 ps s) (hsub : ∀ p ∈ l, p ∈ ps)
-    (h : ∀ s', St s0 ps s' → Sat (f ()) s' Q) : Sat (patchAll target l >>= f) s Q :=
-  Sat.bind (st_patchAll hst hsub h)
+theorem st_patchAll_bind {β} {target : Nat} {l : List Nat} {f : Unit → CM β} {s0 s : CState} {ps ts : List Nat}
+    {Q : β → CState → Prop} (hst : St s0 ps ts s) (hsub : ∀ p ∈ l, p ∈ ps) (ht : target ∈ ts)
+    (h : ∀ s', St s0 ps ts s' → Sat (f ()) s' Q) : Sat (patchAll target l >>= f) s Q :=
+  Sat.bind (st_patchAll hst hsub ht h)
 
 end UgoVerif.Compile
